@@ -464,7 +464,7 @@ def finish(ctx, proof, write=True):
         wall_s=round(time.time() - ctx.t0, 2),
         violations=len(new_violations) if new_violations else (1 if broken else 0),
     )
-    if write:
+    if write and os.environ.get("VERIF_NO_EVIDENCE") != "1":      # dev runs against seeded changes must not touch evidence/
         os.makedirs(EVID, exist_ok=True)
         json.dump(evidence, open(os.path.join(EVID, "%s.json" % pid), "w"), indent=1)
     for ln in lines:
